@@ -73,11 +73,18 @@ func runC05(c *Check, a *Analysis) {
 	c.Rule("R-ONE-WORKER", "every scheduler.New call in package rpc passes the constant 1 as the number of workers", 8)
 	for _, fn := range p.Fns {
 		for _, call := range callsIn(fn, "scheduler.New") {
-			k, ok := constInt(call.Common().Args[0])
+			nargs := call.Common().Args
+			if cv, isCall := call.(*ssa.Call); isCall {
+				nargs = p.newArgs(cv)
+			}
+			if len(nargs) == 0 {
+				continue
+			}
+			k, ok := constInt(nargs[0])
 			good := ok && k == 1
 			det := ""
 			if !good {
-				det = "scheduler created with " + describe(call.Common().Args[0]) + " workers: tasks of one connection can run concurrently and out of order"
+				det = "scheduler created with " + describe(nargs[0]) + " workers: tasks of one connection can run concurrently and out of order"
 			}
 			c.Ob("R-ONE-WORKER", sc.key(fn, "scheduler.New(1,…)"), p.InstrPos(call), good, det)
 		}
